@@ -666,6 +666,11 @@ package dsl
 //@   ensures a_shallow_instantiation_leaves_references_alone: typeof(node) == *SimpleType && shallow ==> result == node
 //@   ensures a_reference_to_a_type_parameter_becomes_its_argument: typeof(node) == *SimpleType && node.(*SimpleType) != nil && !shallow && typeof(old(node.(*SimpleType).ResolvedDefinition)) == *GenericTypeParameter ==> (forall k in 0..old(len(meta.TypeParameters)) :: (old(meta.TypeParameters[k]) == old(node.(*SimpleType).ResolvedDefinition).(*GenericTypeParameter) && (forall j in 0..k :: old(meta.TypeParameters[j]) != old(node.(*SimpleType).ResolvedDefinition).(*GenericTypeParameter)) ==> result == old(typeArguments[k])))
 //@   ensures a_definition_object_not_yet_rewritten_is_rewritten: typeof(node) == *SimpleType && node.(*SimpleType) != nil && !shallow && typeof(old(node.(*SimpleType).ResolvedDefinition)) != *GenericTypeParameter && !old(node.(*SimpleType).ResolvedDefinition in rewrittenDefinitions) ==> called("dsl.(*Rewriter).Rewrite")
+// C10 (prompt termination): a referenced definition that has been looked at is remembered whether or not anything was
+// substituted in it - otherwise a definition that does not mention the type parameters is walked again for every
+// reference to it, and a chain of records with two references per level takes 2^depth steps.
+//@   property C10
+//@   ensures a_definition_that_was_looked_at_is_remembered: typeof(node) == *SimpleType && node.(*SimpleType) != nil && !shallow && typeof(old(node.(*SimpleType).ResolvedDefinition)) != *GenericTypeParameter ==> old(node.(*SimpleType).ResolvedDefinition) in rewrittenDefinitions
 // C06: before two versions of a generic definition are compared the new one is re-expressed in the old one's type
 // parameters - throughout (fields and aliased types refer to parameters by identity), not only in its header.
 //@ observe-args dsl.MakeGenericType
